@@ -451,6 +451,7 @@ func init() {
 		checkMatchDispatch(r, prog, a, "c04")
 		checkDispositionTable(r, prog, "c04", true, false)
 		checkRegexpSource(r, prog, a, "c04") // matches and not matches use the same pattern, prepared the same way
+		checkMatcherOperatorBlind(r, prog, a, "c04")
 		g := loadGrammars(r, prog)
 		if g != nil {
 			ga := NewGA(prog, g.Tab)
